@@ -11,6 +11,7 @@ PROPS_VO = "Props/C01"
 AXIOMS_OK = []
 
 ALLOC_BOUND, NBR_BOUND, SIZE_BOUND, STEP_BOUND, DEPTH_BOUND, RAND_POINTS_BOUND = 100000, 1000, 200000, 10000, 5000, 1000      # = Suites/SNoPanic.v
+QUICK_BOUNDS = "allocation sizes and vector lengths <= 3000, size measure <= 20000"                                       # = quick_bounds there
 PARTIAL = ("native stack exhaustion by recursion over very deeply nested items (Item::size, Display, Drop, rec_push), allocation failure and "
            "process aborts cannot be exhibited by the Gallina model; they are covered only by stream (d) inside the envelope")
 ASSUMPTIONS = [
@@ -23,6 +24,9 @@ ASSUMPTIONS = [
     "default 8 MiB main-thread stack a nesting of 20000 aborts the process, 5000 does not - observed with suite deepnest); "
     "at most %d interpreter steps per case (eval_push_limit <= %d). C15 covers the envelope itself"
     % (ALLOC_BOUND, NBR_BOUND, RAND_POINTS_BOUND, SIZE_BOUND, DEPTH_BOUND, STEP_BOUND, STEP_BOUND),
+    "the generated cases of the model-compared streams are held to tighter bounds (suite nopanic.envq: %s) because the list-based model is quadratic in the vector length for the "
+    "element-wise vector instructions; between those bounds and the envelope the implementation is exercised by stream (c) (whose guard uses the envelope's bounds) and by the "
+    "ALLOC_BOUND-sized allocations of stream (a)" % QUICK_BOUNDS,
     "hypotheses of the theorems: wf_state (typing of the state: every i32-typed value is an i32, INDEX fields are usize; no length bounds), envelope (the top CODE item has "
     "<= i32::MAX points; only CODE.EXTRACT and CODE.NTH depend on it), stays_in_envelope for k steps / the run loop",
     "facts of IEEE binary32 arithmetic assumed of the abstract FloatOps (fo_typed: `x as i32` is an i32; fo_nbits: BOOLVECTOR.RAND's bit count lies in 0..=size); "
@@ -48,11 +52,12 @@ def registry():
     return impl, modelled
 
 
-def env_filter(cases):
-    """suite nopanic.env on the model: (cases inside the envelope with their libm tables filled in, #outside, #libm-unresolved)"""
+def env_filter(cases, suite="nopanic.envq"):
+    """suite nopanic.envq (the envelope decision of nopanic.env with the tighter bounds QUICK_BOUNDS that keep the list-based model fast) on the
+    model: (cases inside with their libm tables filled in, #outside, #libm-unresolved)"""
     if not cases:
         return [], 0, 0
-    res, lines = vcheck.resolve_needs(["nopanic.env " + c for c in cases])
+    res, lines = vcheck.resolve_needs(["%s %s" % (suite, c) for c in cases])
     keep = [l.split(" ", 1)[1] for r, l in zip(res, lines) if r == "(0 1)"]
     for r, l in zip(res, lines):
         if r == vcheck.BAD:
@@ -87,11 +92,18 @@ def stream_a(rng, tier, impl, modelled):
         cases += boundgen.cmd_cases(rng, harmless=(tier == "thorough"))
     n0 = len(cases)
     cases, outside, unres = env_filter(cases)
+    # the edge of the envelope itself: allocations of ALLOC_BOUND elements (decided by nopanic.env, not by the tighter filter)
+    edge = [case_run(prof, state(exec=[I(nm)], int=[z, 1], float=[fbits(0.5)]), 0, 1)
+            for nm in sorted(stepgen.ALLOCATING) if nm in modelled and nm.endswith(("ONES", "ZEROS")) for prof in (0, 1) for z in (ALLOC_BOUND, ALLOC_BOUND + 1)]
+    edge, eout, _ = env_filter(edge, "nopanic.env")
+    assert eout == len(edge), "ALLOC_BOUND of checks/C01.py and Suites/SNoPanic.v differ"
+    cases += edge
     note = ("single-step sweep: %d deterministic modelled names x (%s) + %d random states per name (stepgen.step_case), "
             "both profiles%s; allocation sizes tamed (INTEGER pool <= 300, LIST.NEIGHBOR* <= 40); EXEC.CMD only without its NAME operands%s. "
-            "generated %d, outside the envelope (dropped) %d, libm unresolved (dropped) %d. not in the model registry (skipped): %s"
+            "generated %d, outside the generators' bounds (%s; dropped) %d, libm unresolved (dropped) %d; + %d allocations of exactly ALLOC_BOUND elements. "
+            "not in the model registry (skipped): %s"
             % (len(sweep), POOLS_TEXT, nrand, "" if dense else " (quick: the product alternates the profile)",
-               " + 4 harmless `true` cases" if tier == "thorough" else "", n0, outside, unres, ", ".join(skipped) or "none"))
+               " + 4 harmless `true` cases" if tier == "thorough" else "", n0, QUICK_BOUNDS, outside, unres, len(edge), ", ".join(skipped) or "none"))
     return Stream("a:single-step", "run", "nopanic.check", cases, note)
 
 
@@ -163,7 +175,7 @@ def stream_b(rng, tier, impl, modelled):
     note = ("generated programs (gen/proggen.py grammar over the %d modelled names minus EXEC.CMD, the RAND and the HashMap-ordered GRAPH names; 1-3 top-level items of "
             "<= 60 points) + the DIVERGING/TERMINATING/EXPLODING texts, from random initial states (stepgen.rand_state, half of them with extreme INTEGERs, "
             "random GRAPH stacks), run by PushInterpreter::run (eval_push_limit in 0..1000, growth_cap in 0..500) or single-stepped k <= 250 steps, random profile. "
-            "generated %d, outside the envelope (dropped before reaching implementation or model) %d, libm unresolved (dropped) %d" % (len(names), n0, outside, unres))
+            "generated %d, outside the generators' bounds (dropped before reaching implementation or model) %d, libm unresolved (dropped) %d" % (len(names), n0, outside, unres))
     return Stream("b:programs", "run", "nopanic.check", cases, note)
 
 
@@ -243,7 +255,7 @@ def supervised_only_cases(rng, impl, modelled):
                 for depth in (1000, 2000, DEPTH_BOUND):
                     for where in (0, 1, 2):
                         deep_nest.append(sx_str([prof, depth, corek, where, prog, 300]))
-    deep_run, out2, _ = env_filter(deep_run)
+    deep_run, out2, _ = env_filter(deep_run, "nopanic.env")
     assert out2 == 0
     return {"programs": cases, "outside": outside, "deep_run": deep_run, "deep_nest": deep_nest}
 
